@@ -42,6 +42,8 @@ type vnetHop struct {
 	Scheme  string   `json:"scheme"`
 	User    string   `json:"user"`
 	Form    string   `json:"form"`
+	Port    string   `json:"port"`
+	Rel     string   `json:"rel"`
 	Answers [][]int  `json:"answers"`
 	Classes []string `json:"classes"`
 	St      string   `json:"st"`
@@ -428,6 +430,10 @@ func (w *vnetRT) RoundTrip(req *http.Request) (*http.Response, error) {
 		_, pw := req.URL.User.Password()
 		hr.Cred = req.URL.User.Username() != "" || pw
 	}
+	// what would go on the wire for this request (net/http has already turned URL userinfo into a header here)
+	if vnetWireHasAuth(req) {
+		hr.Auth = true
+	}
 	r.hops = append(r.hops, hr)
 	before := len(r.conns)
 	var zone map[string][]net.IP
@@ -466,6 +472,23 @@ func (w *vnetRT) RoundTrip(req *http.Request) (*http.Response, error) {
 	}
 	out.Status = fmt.Sprintf("%d %s", out.StatusCode, http.StatusText(out.StatusCode))
 	return out, nil
+}
+
+// vnetWireHasAuth serialises the request head exactly as the transport would send it and looks for credentials.
+func vnetWireHasAuth(req *http.Request) bool {
+	r2 := req.Clone(req.Context())
+	r2.Body, r2.GetBody, r2.ContentLength = nil, nil, 0
+	var buf strings.Builder
+	if err := r2.Write(&buf); err != nil {
+		return false
+	}
+	for _, line := range strings.Split(buf.String(), "\r\n") {
+		l := strings.ToLower(line)
+		if strings.HasPrefix(l, "authorization:") || strings.HasPrefix(l, "proxy-authorization:") {
+			return true
+		}
+	}
+	return false
 }
 
 func vnetFuncPtr(f any) uintptr {
